@@ -129,7 +129,7 @@ def gen(rng, tier):
     for _ in range(500 if tier == "quick" else 12000):
         cs_.append(Case(dnsgen.dyndns_line(rng, malformed=answer), kind="dns-discovery", malformed=1))
     # the parsers/formatters of the other properties, on their malformed streams
-    for mod, cnt in (("C05", 0.4), ("C06", 0.3), ("C18", 0.02), ("C03", 0.6), ("C20", 0.5)):
+    for mod, cnt in (("C05", 0.4), ("C06", 0.3), ("C18", 0.02), ("C03", 0.6), ("C20", 0.5), ("C15", 0.5)):
         g = importlib.import_module("props." + mod)
         sub = g.gen(rng, tier)
         rng.shuffle(sub)
